@@ -38,6 +38,8 @@ type vProfile struct {
 	callbacks  bool
 	lateScopes bool // scopes may also be created after registrations
 	quietCalls bool // call String/Visualize after every registration
+	as         bool // concrete As results and interface-typed parameters
+	decor2     bool // decorators may decorate two keys / take an extra parameter
 }
 
 type vHist struct {
@@ -75,7 +77,19 @@ func (h *vHist) genParam(tag string, allowGroup bool) *vParam {
 	if h.p.pForms > 1 {
 		p.form = verifNdInt(tag+".form", h.p.pForms)
 	}
-	p.t = verifNdType(tag + ".t")
+	if h.p.as {
+		switch verifNdInt(tag+".ct", 4) {
+		case 1:
+			p.t = vAType
+		case 2:
+			p.t = vI0Type
+		case 3:
+			p.t = vI1Type
+		}
+	}
+	if p.t == nil {
+		p.t = verifNdType(tag + ".t")
+	}
 	if p.form > 0 {
 		if h.p.groups && allowGroup && verifNdBool(tag+".grp") {
 			p.group = "g"
@@ -121,8 +135,15 @@ func (h *vHist) genFunc(kind int, tag string) *vFunc {
 		}
 		f.params = append(f.params, k)
 		f.results = append(f.results, r)
-		if maxP > 1 && verifNdBool(tag+".dextra") {
-			f.params = append(f.params, h.genParam(tag+".p1", false))
+		if h.p.decor2 {
+			switch verifNdInt(tag+".dshape", 3) {
+			case 1: // an extra dependency
+				f.params = append(f.params, &vParam{t: verifNdType(tag + ".dx"), form: k.form})
+			case 2: // decorates a second key
+				t2 := verifNdType(tag + ".dt2")
+				f.params = append(f.params, &vParam{t: t2, form: k.form})
+				f.results = append(f.results, &vResult{t: t2, form: r.form})
+			}
 		}
 	} else {
 		np := 0
@@ -158,6 +179,13 @@ func (h *vHist) genFunc(kind int, tag string) *vFunc {
 				f.optGroup = "g"
 			} else if h.p.names > 1 {
 				f.optName = vNames[verifNdInt(tag+".optname", h.p.names)]
+			}
+		}
+		if h.p.as && !anyObj && verifNdBool(tag+".as") {
+			f.optAs = 1 + verifNdInt(tag+".asn", 2)
+			for _, r := range f.results {
+				r.t = vAType
+				r.as = f.optAs
 			}
 		}
 		for i, r := range f.results {
@@ -228,7 +256,9 @@ func (h *vHist) assumeDistinct(f *vFunc) {
 		}
 		for j := 0; j < i; j++ {
 			if f.results[j].group == "" {
-				verifAssume(!r.key().eq(f.results[j].key()))
+				for _, k1 := range r.keys() {
+					verifAssume(!f.results[j].hasKey(k1))
+				}
 			}
 		}
 		for _, g := range h.funcs {
@@ -237,7 +267,9 @@ func (h *vHist) assumeDistinct(f *vFunc) {
 			}
 			for _, r2 := range g.results {
 				if r2.group == "" {
-					verifAssume(!r.key().eq(r2.key()))
+					for _, k1 := range r.keys() {
+						verifAssume(!r2.hasKey(k1))
+					}
 				}
 			}
 		}
@@ -548,6 +580,16 @@ func (h *vHist) afterInvoke(w *vWorld, r *vReg, o vOutcome, cl *vClosure, before
 		h.assert("C01.once", ran == 0)
 	}
 	h.assert("C13.cycle", (o.class == vcCycle) == (o.err != nil && IsCycleDetected(o.err)))
+	if h.enabled("C05s.") {
+		if w.resCyc {
+			h.assert("C05s.invoke", o.class == vcCycle)
+			verifWitness("invoke-on-cycle")
+		}
+		if !w.permCyc {
+			h.assert("C05s.nofalse", o.class != vcCycle)
+		}
+		h.assert("C05s.nopanic", o.class != vcPanicked)
+	}
 	if cl.missing {
 		if len(failed) == 0 {
 			h.assert("C04.err", o.class == vcDig)
@@ -718,7 +760,43 @@ func (h *vHist) apply(w *vWorld, ops []vOp) {
 			h.afterQuiet(w, op.tag+".scope")
 		case opReg:
 			before := w.nexec
+			cand := &vReg{f: op.f, scope: op.scope, home: op.scope}
+			if op.f.export && op.f.kind == vCtor {
+				cand.home = 0
+			}
+			dup, strict, permissive := false, false, false
+			if op.f.kind == vCtor && h.enabled("C05s.") || h.enabled("C09.") {
+				if op.f.kind == vCtor {
+					dup = w.dupKey(op.f, cand.home)
+					if !dup {
+						strict = w.strictCycle(cand)
+						permissive = w.permissiveCycle(cand)
+					}
+				}
+			}
 			_, o := w.register(op.f, op.scope)
+			if op.f.kind == vCtor && (h.enabled("C05s.") || h.enabled("C09.")) {
+				if dup {
+					h.assert("C09.dup", o.class == vcDig)
+					verifWitness("duplicate-key")
+				} else {
+					if !w.deferV {
+						if strict {
+							h.assert("C05s.reject", o.class == vcCycle)
+							verifWitness("cycle-rejected")
+						}
+						if !permissive {
+							h.assert("C05s.nofalse", o.class != vcCycle)
+							h.assert("C09.nodup", o.class == vcOK)
+						}
+					} else {
+						h.assert("C05s.deferaccept", o.class == vcOK)
+						if strict {
+							verifWitness("cycle-deferred")
+						}
+					}
+				}
+			}
 			h.assert("C03.reg", w.nexec == before)
 			h.assert("C14.nopanic", o.class != vcPanicked)
 			w.record(op.tag + ":" + vClassNames[o.class] + vPanicText(o.panicv))
@@ -733,6 +811,12 @@ func (h *vHist) apply(w *vWorld, ops []vOp) {
 			cl := w.invokeClosure(op.scope, op.f)
 			if h.p.noMissing {
 				verifAssume(!cl.missing)
+			}
+			rc := false
+			if h.enabled("C05s.") {
+				rc = w.resCycle(op.scope, op.f.params, nil, nil)
+				w.resCyc = rc
+				w.permCyc = w.permissiveCycle(nil)
 			}
 			w.inv = cl
 			before := h.execCounts(w)
